@@ -15,6 +15,7 @@ class C08(Prop):
     id = "C08"
     props = "C08_Props"
     coq_files = ("Base", "C08_Model", "C08_Spec", "C08_Proofs", "C08_Props")
+    models = ("C08_Model",)
     packages = {"cc": "internal/app/connectconformance", "main": "cmd/connectconformance"}
     kinds = {"c08.trie": "cc", "c08.accept": "cc", "c08.checks": "cc", "c08.args": "main", "c08.file": "main"}
     rule = ("c08.trie: every set of <=2 patterns of length <=L over {a,b,*,**} against every name of length <=4 over {a,b} "
